@@ -220,16 +220,18 @@ Section PipelinePair.
   Variable unpickle : content X -> option delta.
   Variable mk_delta : doc -> doc -> delta.
   Variable apply_delta : delta -> doc -> doc.
-  Hypothesis pickle_roundtrip : forall d, unpickle (pickle d) = Some d.
   Hypothesis json_roundtrip : forall d c, dump d = Some c -> parse c = Some d.
 
-  (** [FsProofs.patch_reproduces] without the blanket C01 premise: A ends up holding
+  (** [FsProofs.patch_reproduces] without the blanket C01 / C14 premises: the patch file
+      written for THIS pair loads back as the delta it was made from, and A ends up holding
+      the serialisation of whatever [delta + content] evaluates to for THIS pair: A ends up holding
       the serialisation of whatever [delta + content] evaluates to for THIS pair *)
   Lemma patch_reproduces_pair :
     forall pos keep A B P (f : fs X) ca a b pd cr,
       f A = Some ca -> parse ca = Some a -> load parse f B = Some b ->
       P <> A -> P <> bak A ->
       diff_cmd parse pickle mk_delta A B f = Some pd ->
+      unpickle (pickle (mk_delta a b)) = Some (mk_delta a b) ->
       dump (apply_delta (mk_delta a b) a) = Some cr ->
       exists f', patch_cmd parse dump unpickle apply_delta pos keep A P no_fault (upd P (Some pd) f) = (f', Done) /\
                  load parse f' A = Some (apply_delta (mk_delta a b) a) /\
@@ -237,7 +239,7 @@ Section PipelinePair.
                  f' (bak A) = (if keep then Some ca else None) /\
                  (forall q, q <> A -> q <> bak A -> q <> P -> f' q = f q).
   Proof.
-    intros pos keep A B P f ca a b pd cr HA Hpa HB HPA HPb Hdiff Hdump.
+    intros pos keep A B P f ca a b pd cr HA Hpa HB HPA HPb Hdiff pickle_roundtrip Hdump.
     unfold diff_cmd, load in Hdiff. rewrite HA, Hpa in Hdiff.
     unfold load in HB. rewrite HB in Hdiff. inversion Hdiff; subst pd; clear Hdiff.
     set (f1 := upd P (Some (pickle (mk_delta a b))) f).
@@ -282,8 +284,46 @@ Section PipelineJson.
   Hypothesis ops_valid : forall p xs ys, forallb is_atom xs = true -> forallb is_atom ys = true -> valid_ops xs ys (ops p xs ys).
   Hypothesis ro_valid : ro_ok ro.
   Hypothesis ao_valid : ao_ok ao.
-  Hypothesis pickle_roundtrip : forall d, unpickle (pickle d) = Some d.
   Hypothesis json_roundtrip : forall d cc, dump d = Some cc -> parse cc = Some d.
+
+  (* the patch file of this pair loads back as the delta it was made from *)
+  Lemma patch_reproduces_json_pair :
+    forall pos keep (A B P : FsModel.path) (f : FsModel.fs X) ca a b pd,
+      f A = Some ca -> parse ca = Some a -> FsModel.load parse f B = Some b ->
+      P <> A -> P <> FsModel.bak A ->
+      is_json a = true -> is_json b = true -> wf a = true -> wf b = true ->
+      alias_free (atoms_of a ++ atoms_of b) ->
+      (ignore_private c = false \/ (nopriv a = true /\ nopriv b = true)) ->
+      unpickle (pickle (mk_delta_json a b)) = Some (mk_delta_json a b) ->
+      FsModel.diff_cmd parse pickle mk_delta_json A B f = Some pd ->
+      exists b',
+        apply conv ro ao (mk_delta_json a b) a = (b', 0) /\
+        veqb b' b = true /\
+        forall cr, dump b' = Some cr ->
+          exists f',
+            FsModel.patch_cmd parse dump unpickle apply_delta_json pos keep A P FsModel.no_fault
+                              (FsModel.upd P (Some pd) f) = (f', FsModel.Done) /\
+            FsModel.load parse f' A = Some b' /\
+            f' A = Some cr /\
+            f' (FsModel.bak A) = (if keep then Some ca else None) /\
+            (forall q, q <> A -> q <> FsModel.bak A -> q <> P -> f' q = f q).
+  Proof.
+    intros pos keep A B P f ca a b pd HA Hpa HB HPA HPb Ja Jb Wa Wb AF NP Hpk Hdiff.
+    pose proof (json_guards c conv conv_typed conv_json a b Ja Jb Wa Wb AF NP) as G.
+    destruct (roundtrip hatom udiff ops c conv false false hatom_inj conv_typed ro ao a b ops_valid ro_valid ao_valid G)
+      as (b' & Happ & Heq).
+    exists b'. split; [exact Happ|]. split; [exact Heq|].
+    intros cr Hdump.
+    assert (Hres : apply_delta_json (mk_delta_json a b) a = b').
+    { unfold apply_delta_json, mk_delta_json, delta_of. rewrite Happ. reflexivity. }
+    rewrite <- Hres in Hdump.
+    destruct (patch_reproduces_pair X value delta parse dump pickle unpickle mk_delta_json apply_delta_json
+                json_roundtrip pos keep A B P f ca a b pd cr HA Hpa HB HPA HPb Hdiff Hpk Hdump)
+      as (f' & H1 & H2 & H3 & H4 & H5).
+    rewrite Hres in H2. exists f'. auto.
+  Qed.
+
+  Hypothesis pickle_roundtrip : forall d, unpickle (pickle d) = Some d.
 
   Theorem patch_reproduces_json :
     forall pos keep (A B P : FsModel.path) (f : FsModel.fs X) ca a b pd,
@@ -306,18 +346,7 @@ Section PipelineJson.
             (forall q, q <> A -> q <> FsModel.bak A -> q <> P -> f' q = f q).
   Proof.
     intros pos keep A B P f ca a b pd HA Hpa HB HPA HPb Ja Jb Wa Wb AF NP Hdiff.
-    pose proof (json_guards c conv conv_typed conv_json a b Ja Jb Wa Wb AF NP) as G.
-    destruct (roundtrip hatom udiff ops c conv false false hatom_inj conv_typed ro ao a b ops_valid ro_valid ao_valid G)
-      as (b' & Happ & Heq).
-    exists b'. split; [exact Happ|]. split; [exact Heq|].
-    intros cr Hdump.
-    assert (Hres : apply_delta_json (mk_delta_json a b) a = b').
-    { unfold apply_delta_json, mk_delta_json, delta_of. rewrite Happ. reflexivity. }
-    rewrite <- Hres in Hdump.
-    destruct (patch_reproduces_pair X value delta parse dump pickle unpickle mk_delta_json apply_delta_json
-                pickle_roundtrip json_roundtrip pos keep A B P f ca a b pd cr HA Hpa HB HPA HPb Hdiff Hdump)
-      as (f' & H1 & H2 & H3 & H4 & H5).
-    rewrite Hres in H2. exists f'. auto.
+    eapply patch_reproduces_json_pair; eauto.
   Qed.
 End PipelineJson.
 
